@@ -2,7 +2,8 @@
 
 Pass M  TLC checks, on every generated case, the design spec (spec/c09/ReduceModel.tla, a transcription of
         ast.go's Reduce) against the property spec (EvalSem.tla, exact 64-bit / IEEE semantics; TimeSem.tla,
-        exact instants): invariants of Gen_c09.tla.
+        exact instants; zone slice: the zone in force of a valuer composition and the instants of zone-less
+        date strings in it): invariants of Gen_c09.tla.
 Pass G  the same runs write every case (tree, bindings, split, counterfactual trees, the specs' expectations).
 Pass V  the driver runs Reduce / ValuerEval on each case; Judge_c09.tla decides every record.
 """
@@ -32,6 +33,10 @@ def cfg(mode, depth, sem, text, ops, invs, size="quick"):
 
 EXPR_INV = ["GenWellTyped", "ModelPreserves", "RepairedPreserves", "ModelIdempotent"]
 TIME_INV = ["ModelTimeExact", "ModelTimeIdempotent"]
+ZONE_INV = ["ModelZoneInForce", "ModelZoneExact", "ModelZoneIdempotent"]
+# the zone slice, partitioned by root operator (forms: + is T+D and D+T, - is T-D and T-T, the others TcmpT)
+ZPARTS2 = [["+", "-", "=", "!="], ["<", "<=", ">", ">="]]
+ZPARTS4 = [["+", "-", "="], ["!=", "<"], ["<=", ">"], [">="]]
 
 
 def pipeline(ctx, name, cfgtext, simulate, depth, workers):
@@ -71,7 +76,8 @@ def run(ctx):
     ctx.rule = ("One case = one well-typed expression tree (AST built directly, and again through text + ParseExpr where "
                 "expressible) x one assignment of boundary values x one split of the variables between Reduce and the "
                 "evaluator; distinct = distinct case records (hash de-duplicated by the driver). Non-trivial = Reduce "
-                "changed the expression (folded, substituted or simplified something), counted by the TLA+ judge.")
+                "changed the expression (folded, substituted or simplified something), counted by the TLA+ judge. "
+                "Zone slice: one case = one valuer composition x one zone x one time-arithmetic form x operands.")
     ctx.assumptions = [
         "TLC 1.8 and the CommunityModules Json/CSV/Bitwise modules",
         "spec/common/BigInt.tla and spec/c09/Num64.tla (exact 64-bit and IEEE-754 double arithmetic in TLA+, validated "
@@ -79,7 +85,8 @@ def run(ctx):
         "carries an EvalSem value)",
         "the Go AST builder / projection in harness/suite_c09.go (checked per record: projected input = the spec's tree)",
         "float domains are dyadic and far from overflow / subnormals; -0 is identified with +0",
-        "time zones other than UTC, duration scaling, regex operators and calls other than now() are outside the check",
+        "time zones are fixed offsets (time.FixedZone / time.UTC: no tzdata, no transitions); duration scaling, regex "
+        "operators and calls other than now() are outside the check",
     ]
     q = ctx.quick
     split = PARTS2 if q else PARTS           # fewer, larger TLC processes in the quick tier (a JVM start costs 2-3 s)
@@ -88,6 +95,9 @@ def run(ctx):
         # text + ParseExpr route: quick only for variable-free expressions, thorough wherever expressible
         parts.append(("d1_%d" % i, cfg("expr", 1, True, "lits" if q else "all", ops, EXPR_INV), None, None, 4))
     parts.append(("time", cfg("time", 1, True, "none", ALLOPS, TIME_INV), None, None, 2))
+    # zone slice (BFS, exhaustive): 11 valuer compositions x 5 fixed-offset zones x time forms with a zone-less date string
+    for i, ops in enumerate(ZPARTS2 if q else ZPARTS4):
+        parts.append(("zone_%d" % i, cfg("zone", 1, True, "none", ops, ZONE_INV, "quick" if q else "thorough"), None, None, 2))
     for i, ops in enumerate([ALLOPS] if q else PARTS):   # depth 2 and nested parentheses, sampled, with the specs
         parts.append(("simsem_%d" % i, cfg("expr", 2, True, "all", ops, EXPR_INV), "num=%d" % (100 if q else 1200), 18, 4))
     for i, ops in enumerate([ALLOPS] if q else PARTS):   # depth 2 and nested parentheses, sampled, relation only
@@ -146,10 +156,19 @@ def run(ctx):
     ctx.coverage_extra["decided_how"] = {
         "value preserved / idempotent": "real Reduce and real ValuerEval observed; relation decided by Judge_c09 (TLC)",
         "time arithmetic exact": "expected node computed by TimeSem (BigInt) in TLC, compared with the real folded node",
+        "zone slice (zone_*)": "BFS-exhaustive over valuer compositions (flat, nested MultiValuer, NowValuer without zone before "
+                               "the one with a zone, zone first, two zones, bare NowValuer, zone-only NowValuer, deeper nestings, "
+                               "no zone) x zones UTC / -05:00 / +05:30 / +14:00 / -12:00 x T+D, T-D, D+T, T-T, comparisons and "
+                               "equalities with at least one zone-less date string; the driver builds the composition with the "
+                               "real MultiValuer / NowValuer / MapValuer; expected node computed by TimeSem in the zone in force "
+                               "(first non-nil zone, depth-first), compared with the real folded node by Judge_c09; string = string "
+                               "decided on the two real evaluations (Dev_TimeStringEquality only when the fold is the instant "
+                               "comparison in that very zone)",
         "systematic depth-2 family (chain_*)": "BFS-exhaustive over both nestings x operator pairs x evaluation-time variable "
                                                "positions / kinds x boundary constants; relation decided on the two real evaluations",
         "real evaluator vs exact EvalSem": "compared on every d1_* and simsem_* record; a difference that keeps the property is drift",
-        "ReduceModel vs EvalSem / TimeSem": "TLC invariants of Gen_c09 on every d1_*, simsem_* and time case",
+        "ReduceModel vs EvalSem / TimeSem": "TLC invariants of Gen_c09 on every d1_*, simsem_*, time and zone_* case (zone_*: also "
+                                            "multiValuer.Zone / Call / Value as transcribed vs the zone in force)",
     }
     return vp.case_finder
 
